@@ -378,3 +378,57 @@ Qed.
 
 Lemma skip_spaces_nonspace c r : is_space c = false -> skip_spaces (c :: r) = c :: r.
 Proof. intros H. cbn [skip_spaces]. rewrite H. reflexivity. Qed.
+
+(* ---- no match inside a described prefix, whatever follows it (open tail) ---- *)
+Section ClearOpen.
+Variable g : guard.
+Fixpoint clear_lit_o (t : text) (r : list seg) : bool :=
+  match t with
+  | [] => true
+  | _ :: t' => negb (may_match true g (AL t :: absd r)) && clear_lit_o t' r
+  end.
+Fixpoint clear_open (d : list seg) : bool :=
+  match d with
+  | [] => true
+  | SL t :: r => clear_lit_o t r && clear_open r
+  | SF k v :: r => negb (may_match true g (AF k :: absd r)) && clear_open r
+  end.
+End ClearOpen.
+
+Section ClearOpenSound.
+Context {A : Type} (m : text -> option A) (g : guard) (Hg : guarded m g).
+
+Lemma find_last_none_open_lit t r tail :
+  Forall seg_ok r -> clear_lit_o g t r = true -> find_last m (flat r ++ tail) = None ->
+  find_last m (t ++ flat r ++ tail) = None.
+Proof.
+  intros Hr Hc Hn. induction t as [|x t IH]; [exact Hn|].
+  cbn [clear_lit_o] in Hc. apply andb_true_iff in Hc. destruct Hc as [H1 H2].
+  cbn [app find_last]. rewrite (IH H2).
+  apply (guard_fails m g Hg (AL (x :: t) :: absd r)); [|apply negb_true_iff; exact H1].
+  change (x :: t ++ flat r ++ tail) with ((x :: t) ++ (flat r ++ tail)). constructor. apply conc_flat; auto.
+Qed.
+
+Lemma find_last_none_open_fld k v r tail :
+  forallb (mem k) v = true -> Forall seg_ok r ->
+  may_match true g (AF k :: absd r) = false -> find_last m (flat r ++ tail) = None ->
+  find_last m (v ++ flat r ++ tail) = None.
+Proof.
+  intros Hm Hr E Hn. induction v as [|c v IH]; [exact Hn|].
+  cbn [forallb] in Hm. apply andb_true_iff in Hm. destruct Hm as [Hc Hv].
+  cbn [app find_last]. rewrite (IH Hv).
+  apply (guard_fails m g Hg (AF k :: absd r)); [|exact E].
+  change (c :: v ++ flat r ++ tail) with ((c :: v) ++ (flat r ++ tail)).
+  constructor; [discriminate|cbn [forallb]; rewrite Hc, Hv; reflexivity|apply conc_flat; auto].
+Qed.
+
+Lemma find_last_none_open d tail :
+  Forall seg_ok d -> clear_open g d = true -> find_last m tail = None -> find_last m (flat d ++ tail) = None.
+Proof.
+  intros Hd. induction Hd as [|s d Hs Hd IH]; intros Hc Hn; [exact Hn|].
+  destruct s as [t|k v]; cbn [clear_open] in Hc; apply andb_true_iff in Hc; destruct Hc as [H1 H2];
+    cbn [flat seg_text]; rewrite <- app_assoc.
+  - apply find_last_none_open_lit; auto.
+  - destruct Hs as [_ Hm]. apply (find_last_none_open_fld k); auto. apply negb_true_iff; exact H1.
+Qed.
+End ClearOpenSound.
